@@ -28,6 +28,9 @@ from collections import Counter
 import numpy as np
 
 VERIF_ROOT = os.path.dirname(os.path.dirname(os.path.abspath(__file__)))
+# evidence/replays land in /verif unless a development run targets a scratch tree (VERIF_REPO != /repo)
+_dev_repo = os.environ.get("VERIF_REPO", "/repo")
+OUT_ROOT = VERIF_ROOT if os.path.realpath(_dev_repo) == "/repo" else os.path.join("/tmp/verif_dev", os.path.basename(os.path.realpath(_dev_repo)))
 MAX_KEPT_PER_SIGNATURE = 3
 MAX_SAMPLES = 6
 
